@@ -613,6 +613,21 @@ func cryptoStub(in *Interp, fn *ssa.Function, pkg, name string) StubFn {
 						}
 						return a[1]
 					}
+					if name == "Exp" {
+						// x^k for a small constant exponent: repeated multiplication; otherwise opaque
+						if bp, ok := a[2].(Ptr); ok && bp.Obj != nil {
+							if k, ok := in.bigVals[bp.Obj]; ok && k.IsConst && k.C <= 64 {
+								w := wordW(in.frArr(a[0]))
+								x := in.frRead(a[1])
+								r := in.cfg.Field.Const(1, w)
+								for i := uint64(0); i < k.C; i++ {
+									r = in.cfg.Field.Mul(in, r, x)
+								}
+								in.frWrite(a[0].(Ptr), r)
+								return a[0]
+							}
+						}
+					}
 					if name == "SetBytes" || name == "SetBytesCanonical" {
 						// a function of the byte string (length and contents)
 						if sl, ok := a[1].(SliceV); ok {
